@@ -483,7 +483,7 @@ def run(tier, seed):
         tg0 = chaingen.TreeGen(env0, kk, rng)
         tg0.extend(tg0.genesis, txs=[], fees=0)
         cs_bal = chaingen.impl_state_from(tg0.nodes)
-    nseq = 25 if tier == 'quick' else 200
+    nseq = 25 if tier == 'quick' else 1200
     for trial in range(nseq):
         nkeys = rng.choice([0, 1, 2, 2, 3, 6])
         w = Wallet.empty()
